@@ -5,7 +5,7 @@ from vlib import core, hdrspec as G
 ID = "C05"
 LEAN_MODULES = ["LhasaV.Props.C05"]
 VH_FEATURES = ["header"]
-THEOREMS = {
+THEOREMS = {"os9_permissions_match_source": "full (translator tie): os9_to_unix_permissions evaluated from the working tree for all 65536 words = the model, for every header", 
     "header_roundtrip": "FULL STATEMENT: every well-formed typed field assignment of levels 0-3, any mktime, any following data",
     "header_roundtrip_ok": "full", "layout_matches_source": "full (Gen): spec layout constants = compiled source",
     "level1_compressed_size": "full",
